@@ -161,6 +161,22 @@ func (x *Exec) errflowCall(fr *frame, cc *ssa.CallCommon, key string, callee *ss
 		pre := x.contractEnv(ct, callee, args, argTypes, nil, nil, st, nil, fnv)
 		pre.old = st
 		old := st
+		// preconditions over the ghost state (e.g. Unlock needs the lock to be held)
+		short := shortKey(key)
+		x.nameCount["call:"+short]++
+		callNo := x.nameCount["call:"+short]
+		for i, r := range ct.Requires {
+			t, err := pre.trClause(r.Text)
+			if err != nil {
+				x.eng.specError(r, err)
+				continue
+			}
+			lbl := r.Label
+			if lbl == "" {
+				lbl = fmt.Sprint(i + 1)
+			}
+			x.oblige("pre", fmt.Sprintf("%s@%d:%s", short, callNo, lbl), reach, t, "precondition of "+short+": "+r.Text, pos)
+		}
 		nst := x.havocHeapKeepGhosts(st, mod)
 		// frames of the modified ghosts (locations given in the modifies clause)
 		ws := &WriteSet{Comps: map[string]bool{}}
